@@ -22,7 +22,7 @@ RULE = (
     "Oracle: the user callables record the coordinates they were asked about: these must be the pre-image of z (float64 "
     "closed forms for stateless maps; the transform's own inverse when an affine part is fitted), identical for L, pi and q, and "
     "value == (1-beta) log q + beta (log L + log pi) + log|det dx/dz| (beta=1, no q for MCMC) from the values the callables "
-    "returned; zero prior => -inf; NaN tempered value => -inf in SMC. "
+    "returned; zero prior => -inf; NaN tempered value => -inf in SMC; the evaluation leaves the array holding z untouched. "
     "Non-trivial = preconditioning != none and beta < 1, or a zero-prior / NaN point present."
 )
 ASSUMPTIONS = [
@@ -306,6 +306,12 @@ def run_case(case, ctx):
     else:
         val = sampler.log_prob(z_in)
         beta = 1.0
+    z_after = env.to_np(z_in).astype(np.float64)
+    if z_after.shape != z_used.shape or not np.array_equal(z_after, z_used, equal_nan=True):
+        j = int(np.argmax(np.abs(z_after - z_used).max(-1))) if z_after.shape == z_used.shape else 0
+        ctx.fail("kernel-point-overwritten", f"evaluating the target overwrote the kernel's own point: z[{j}] was {z_used[j].tolist()}, is now "
+                                             f"{z_after[j].tolist()} (the kernel continues from a point whose value it was never given)", case,
+                 sampler=case["sampler"], ns=case["ns"], pre=case["pre"])
     special = _check_batch(case, ctx, sampler, z_used, val, beta, rec, lo, hi, is_smc)
     if special:
         labels.append("zero-prior-or-nan-point")
